@@ -1,9 +1,89 @@
-(* C17 — placeholder until the refinement proof lands (see FS/RefineProofs.v). *)
-From Coq Require Import List NArith Bool.
-From PyFS Require Import Base.PyStr Base.Outcome FS.Tree FS.Ops FS.Ref FS.Agree FS.Mem.
+(* C17 — MountFS and MultiFS route every call by their documented rule. *)
+From Coq Require Import List NArith ZArith Bool Arith Lia Sorting Permutation.
+From PyFS Require Import Base.PyStr Base.Outcome Path.PathModel Path.PathSpec Route.Route Route.RouteProofs.
 Import ListNotations.
 
-Theorem C17_ref_makedir_example :
-  agree (mem_run (OMakedir [97%N] false) empty_dir) (ref_run (OMakedir [97%N] false) empty_dir) = true.
-Proof. reflexivity. Qed.
-Print Assumptions C17_ref_makedir_example.
+Theorem C17_key_prefix_components :
+  forall mc cs, Forall good mc -> Forall good cs ->
+  starts_with (key_of mc) (key_of cs) = cprefix mc cs.
+Proof. exact key_prefix_components. Qed.
+Print Assumptions C17_key_prefix_components.
+
+Theorem C17_mount_key_spec :
+  forall p cs, resolve (comps p) = Some cs -> mount_key p = Ok (key_of cs).
+Proof. exact mount_key_spec. Qed.
+Print Assumptions C17_mount_key_spec.
+
+Theorem C17_mount_key_climbs :
+  forall p, resolve (comps p) = None -> mount_key p = Err IllegalBackReference.
+Proof. exact mount_key_climbs. Qed.
+Print Assumptions C17_mount_key_climbs.
+
+Theorem C17_mount_route :
+  forall (ms : list (list str * nat)) p cs,
+  Forall (fun m => Forall good (fst m)) ms -> resolve (comps p) = Some cs ->
+  mount_delegate (map (fun m => (key_of (fst m), snd m)) ms) p
+  = Ok (match route_spec ms cs with
+        | Some (i, rest) => Some (i, to_path false rest)
+        | None => None
+        end).
+Proof. exact mount_route. Qed.
+Print Assumptions C17_mount_route.
+
+Theorem C17_mount_no_string_prefix :
+  forall a b i,
+  good a -> good (a ++ b) -> b <> [] ->
+  route_spec [([a], i)] [a ++ b] = None.
+Proof. exact mount_no_string_prefix. Qed.
+Print Assumptions C17_mount_no_string_prefix.
+
+Theorem C17_mount_refuses_inside :
+  forall (ms : list (list str * nat)) p cs i,
+  Forall (fun m => Forall good (fst m)) ms -> resolve (comps p) = Some cs ->
+  mount_add (map (fun m => (key_of (fst m), snd m)) ms) p i
+  = Ok (if existsb (fun m => cprefix (fst m) cs) ms then None
+        else Some (map (fun m => (key_of (fst m), snd m)) ms ++ [(key_of cs, i)])).
+Proof. exact mount_refuses_inside. Qed.
+Print Assumptions C17_mount_refuses_inside.
+
+Theorem C17_iterate_fs_perm :
+  forall l, Permutation (iterate_fs l) l.
+Proof. exact iterate_fs_perm. Qed.
+Print Assumptions C17_iterate_fs_perm.
+
+Theorem C17_iterate_fs_sorted :
+  forall l,
+  NoDup (map m_index l) -> StronglySorted (fun a b => key_gt a b = true) (iterate_fs l).
+Proof. exact iterate_fs_sorted. Qed.
+Print Assumptions C17_iterate_fs_sorted.
+
+Theorem C17_iterate_fs_head :
+  forall l m rest,
+  NoDup (map m_index l) -> iterate_fs l = m :: rest ->
+  forall x, In x l -> x = m \/ (m_prio x < m_prio m)%Z \/ (m_prio x = m_prio m /\ m_index x < m_index m).
+Proof. exact iterate_fs_head. Qed.
+Print Assumptions C17_iterate_fs_head.
+
+Theorem C17_multi_delegate_first :
+  forall l has i,
+  multi_delegate l has = Some i ->
+  exists pre m post, iterate_fs l = pre ++ m :: post /\ m_id m = i /\ has i = true
+                     /\ Forall (fun x => has (m_id x) = false) pre.
+Proof. exact multi_delegate_first. Qed.
+Print Assumptions C17_multi_delegate_first.
+
+Theorem C17_multi_delegate_none :
+  forall l has,
+  multi_delegate l has = None <-> Forall (fun x => has (m_id x) = false) l.
+Proof. exact multi_delegate_none. Qed.
+Print Assumptions C17_multi_delegate_none.
+
+Theorem C17_dedup_add_nodup :
+  forall seen names, NoDup seen -> NoDup (dedup_add seen names).
+Proof. exact dedup_add_nodup. Qed.
+Print Assumptions C17_dedup_add_nodup.
+
+Theorem C17_dedup_add_in :
+  forall seen names n, In n (dedup_add seen names) <-> In n seen \/ In n names.
+Proof. exact dedup_add_in. Qed.
+Print Assumptions C17_dedup_add_in.
